@@ -272,11 +272,31 @@ func runOpts(c *Ctx) {
 	nRV := 0
 	for _, f := range p.ArgFuncs() {
 		core.Instrs(f, func(in ssa.Instruction) {
-			rv, ok := in.(*ssa.Call)
-			if !ok || core.CalleeName(rv.Common()) != "reflect.ValueOf" {
+			cl, ok := in.(*ssa.Call)
+			if !ok {
 				return
 			}
-			x := rv.Common().Args[0]
+			var rv ssa.Value // the reflect.Value under scrutiny
+			var x ssa.Value  // the interface value it was made from
+			var helperOK ssa.Value
+			if core.CalleeName(cl.Common()) == "reflect.ValueOf" {
+				rv, x = cl, cl.Common().Args[0]
+			} else if h := cl.Common().StaticCallee(); h != nil && c.isValidatingValueOf(h) && len(cl.Common().Args) == 1 {
+				// rv, ok := helper(v) where helper returns (reflect.ValueOf(v), thatValue.IsValid())
+				x = cl.Common().Args[0]
+				for _, ref := range *cl.Referrers() {
+					if e, isE := ref.(*ssa.Extract); isE {
+						if e.Index == 0 {
+							rv = e
+						} else {
+							helperOK = e
+						}
+					}
+				}
+			}
+			if rv == nil {
+				return
+			}
 			// only values that originate from the API boundary (parameters, captured parameters, their elements)
 			if !c.fromAPI(x) {
 				return
@@ -292,15 +312,15 @@ func runOpts(c *Ctx) {
 					if nm == core.RVIsValid {
 						continue
 					}
-					if strings.HasPrefix(nm, "(reflect.Value).") && len(w.Common().Args) > 0 && w.Common().Args[0] == ssa.Value(rv) {
+					if strings.HasPrefix(nm, "(reflect.Value).") && len(w.Common().Args) > 0 && w.Common().Args[0] == rv {
 						blk, what = w.Block(), core.ShortCallee(nm)
 					}
 				case *ssa.MapUpdate:
-					if w.Value == ssa.Value(rv) {
+					if w.Value == rv {
 						blk, what = w.Block(), "stored as an option value"
 					}
 				case *ssa.Store:
-					if w.Val == ssa.Value(rv) {
+					if w.Val == rv {
 						if _, isLocal := w.Addr.(*ssa.Alloc); !isLocal {
 							blk, what = w.Block(), "stored"
 						}
@@ -313,12 +333,17 @@ func runOpts(c *Ctx) {
 				lits := core.Lits(core.Guards(blk))
 				guarded := false
 				for _, l := range lits {
-					if l.Kind == "call" && l.Callee == core.RVIsValid && l.Pol && len(l.Args) == 1 && l.Args[0] == ssa.Value(rv) {
+					if l.Kind == "call" && l.Callee == core.RVIsValid && l.Pol && len(l.Args) == 1 && l.Args[0] == rv {
 						guarded = true
 					}
 				}
 				if nilCheckLit(lits, x, false) {
 					guarded = true
+				}
+				for _, l := range lits {
+					if l.Kind == "bool" && l.Pol && helperOK != nil && l.Of == helperOK {
+						guarded = true
+					}
 				}
 				if !guarded {
 					bad = what + " at " + p.InstrPos(u) + " without a dominating IsValid()/non-nil check"
@@ -329,7 +354,7 @@ func runOpts(c *Ctx) {
 			}
 			nRV++
 			c.R.Func(core.FuncName(f))
-			c.R.Add("REFLVALID", fmt.Sprintf("%s|reflect.ValueOf#%d", core.FuncName(f), countCalls(f, rv)), core.FuncName(f), p.InstrPos(rv), bad == "",
+			c.R.Add("REFLVALID", fmt.Sprintf("%s|reflect.ValueOf#%d", core.FuncName(f), countCalls(f, cl)), core.FuncName(f), p.InstrPos(cl), bad == "",
 				"a reflect.Value made from a caller-supplied interface value is used (Type, stored as an input, …) only where IsValid() holds: nil values are ignored or rejected, never dereferenced",
 				ternary(bad == "", "all uses guarded", bad))
 		})
@@ -630,8 +655,17 @@ func (c *Ctx) runTags(walker *ssa.Function) {
 
 	// reader structure: name override from part 0; options from parts[1:]; option parsing not conditional on the name part
 	var split *ssa.Call
+	parser := walker // the function that parses the tag: the walker itself or a helper it calls (one level)
 	for _, ci := range core.Calls(walker, "strings.Split") {
 		split, _ = ci.(*ssa.Call)
+	}
+	if split == nil {
+		for _, cal := range p.StaticCallees(walker) {
+			for _, ci := range core.Calls(cal, "strings.Split") {
+				split, _ = ci.(*ssa.Call)
+				parser = cal
+			}
+		}
 	}
 	if split == nil {
 		c.R.Undecided("TAGS", "reader|split", "structWalker", p.Pos(walker.Pos()), "the tag is not split with strings.Split (different parser: undecidable by this rule)")
@@ -640,7 +674,7 @@ func (c *Ctx) runTags(walker *ssa.Function) {
 	sep, _ := core.ConstString(split.Common().Args[1])
 	// option map updates
 	var optUpdates []*ssa.MapUpdate
-	core.Instrs(walker, func(in ssa.Instruction) {
+	core.Instrs(parser, func(in ssa.Instruction) {
 		if mu, ok := in.(*ssa.MapUpdate); ok && core.TypeStr(mu.Map.Type()) == "map[string]string" {
 			optUpdates = append(optUpdates, mu)
 		}
@@ -1087,6 +1121,37 @@ func (c *Ctx) runStructWalk(walker *ssa.Function) {
 			if s, ok := core.ConstString(x); ok && s == "" {
 				nameSrc["empty"] = true
 			}
+		case *ssa.Extract:
+			// name part returned by a tag-parsing helper: every return is "" (no tag) or part 0 of the split tag
+			if hc, ok := x.Tuple.(*ssa.Call); ok {
+				if h := hc.Common().StaticCallee(); h != nil && c.P.InTarget(h) {
+					all, any := true, false
+					for _, r := range core.Returns(h) {
+						if x.Index >= len(r.Results) {
+							all = false
+							continue
+						}
+						rv := r.Results[x.Index]
+						if s, ok := core.ConstString(rv); ok && s == "" {
+							continue
+						}
+						if ld, ok := rv.(*ssa.UnOp); ok {
+							if ia, ok := ld.X.(*ssa.IndexAddr); ok {
+								if k, ok := core.ConstInt(ia.Index); ok && k == 0 {
+									if cl, ok := ia.X.(*ssa.Call); ok && core.CalleeName(cl.Common()) == "strings.Split" {
+										any = true
+										continue
+									}
+								}
+							}
+						}
+						all = false
+					}
+					if all && any {
+						nameSrc["tag-part-0"] = true
+					}
+				}
+			}
 		case *ssa.UnOp:
 			if f := sfOf(x); f != "" {
 				nameSrc["field:"+f] = true
@@ -1148,4 +1213,22 @@ func loadBase(v ssa.Value) ssa.Value {
 		}
 	}
 	return v
+}
+
+// isValidatingValueOf: h(v interface{}) (reflect.Value, bool) returning reflect.ValueOf(v) and that value's IsValid().
+func (c *Ctx) isValidatingValueOf(h *ssa.Function) bool {
+	if h == nil || !c.P.InTarget(h) || len(h.Params) != 1 || h.Signature.Results().Len() != 2 {
+		return false
+	}
+	for _, r := range core.Returns(h) {
+		vo, ok := r.Results[0].(*ssa.Call)
+		if !ok || core.CalleeName(vo.Common()) != "reflect.ValueOf" || vo.Common().Args[0] != ssa.Value(h.Params[0]) {
+			return false
+		}
+		iv, ok := r.Results[1].(*ssa.Call)
+		if !ok || core.CalleeName(iv.Common()) != core.RVIsValid || iv.Common().Args[0] != ssa.Value(vo) {
+			return false
+		}
+	}
+	return len(core.Returns(h)) > 0
 }
